@@ -531,6 +531,22 @@ fn stress(rep: &mut Report, threads: usize, ops: usize, contents: usize, seed: u
                     unreg(c, &h);
                     drop(h);
                 }
+                // unique-contents phase: every string lives and dies exactly once while the other threads
+                // keep the table busy, so an entry whose clean-up was skipped or lost is never re-used by a
+                // later new() and stays visible in the final table size
+                barrier.wait();
+                for k in 0..(per_round * rounds / 4).max(1000) {
+                    let mut bytes = content_bytes(tag, 255);
+                    bytes.extend_from_slice(&(t as u32).to_le_bytes());
+                    bytes.extend_from_slice(&(k as u64).to_le_bytes());
+                    let h = SharedString::new(bytes.clone());
+                    let h2 = h.clone();
+                    if h2.data() != &bytes[..] {
+                        errors.lock().unwrap().push("data-mismatch: unique".into());
+                    }
+                    drop(h);
+                    drop(h2);
+                }
             })
         })
         .collect();
@@ -548,6 +564,7 @@ fn stress(rep: &mut Report, threads: usize, ops: usize, contents: usize, seed: u
     rep.evaluations += 1;
     rep.add("stress.operations", (per_round * rounds * threads) as u64);
     rep.add("stress.barrier_checks", (rounds * threads) as u64);
+    rep.add("stress.unique_strings_created_and_dropped", ((per_round * rounds / 4).max(1000) * threads) as u64);
     errs.sort();
     errs.dedup_by_key(|e| classify(e));
     for e in errs {
